@@ -1,5 +1,6 @@
 use std::collections::{HashMap, HashSet};
 use std::sync::Arc;
+use shared::terms::Term;
 use shared::triple::Triple;
 use rayon::prelude::*;
 use crate::reasoning::materialisation::replace_variables_with_bound_values;
@@ -9,6 +10,17 @@ use crate::reasoning::rules::matches_rule_pattern;
 impl Reasoner {
 
     pub fn infer_new_facts_semi_naive_parallel(&mut self) -> Vec<Triple> {
+        // The parallel evaluator below only joins rules with one or two premises over
+        // constant predicates and ignores filters; other rule shapes are evaluated sequentially.
+        let supported = self.rules.iter().all(|rule| {
+            rule.premise.len() <= 2
+                && rule.filters.is_empty()
+                && rule.premise.iter().all(|(_, predicate, _)| matches!(predicate, Term::Constant(_)))
+        });
+        if !supported {
+            return self.infer_new_facts_semi_naive();
+        }
+
         // Collect all known facts
         let all_initial = self.dataset_index.query(None, None, None);
         let mut all_facts: HashSet<Triple> = all_initial.into_iter().collect();
